@@ -302,6 +302,12 @@ def pathsJoinable (md0 : Items) : Bool :=
      | _ => true)
   | _ => true
 
+/-- outside the classes of the open findings D07f (`files` is a mapping; with a content path, a
+    `path` that `os.path.join` rejects) and D07j (numbers beyond the int→str limit): the
+    hypothesis of `C07_validate_only_metainfo_error`, evaluated by the driver as `hypThm` -/
+def outsideD07fD07j (fs : FsOracle) (md0 : Items) : Bool :=
+  filesNotMapping md0 && (!fs.hasPath || pathsJoinable md0) && numbersSmall md0
+
 section
 variable (urlOk : Bytes → Bool) (fs : FsOracle)
 
